@@ -119,7 +119,8 @@ fn args_for(op: &str, nullable: bool) -> Vec<FieldValue> {
         "is_null" | "is_not_null" => vec![FieldValue::Null],
         "=" | "!=" => { let mut v = small_ints(); if nullable { v.push(FieldValue::Null); } v }
         "one_of" | "not_one_of" => {
-            let mut v = vec![l(vec![]), l(vec![FieldValue::Int64(0)]), l(vec![FieldValue::Int64(-1), FieldValue::Uint64(u64::MAX)]), l(vec![FieldValue::Uint64(1), FieldValue::Int64(1), FieldValue::Uint64(2)])];
+            let mut v = vec![l(vec![]), l(vec![FieldValue::Int64(0)]), l(vec![FieldValue::Int64(-1), FieldValue::Uint64(u64::MAX)]), l(vec![FieldValue::Uint64(1), FieldValue::Int64(1), FieldValue::Uint64(2)]),
+                             l(vec![FieldValue::Int64(0), FieldValue::Int64(1)]), l(vec![FieldValue::Uint64(3), FieldValue::Uint64(0)])];
             if nullable { v.push(l(vec![FieldValue::Null])); v.push(l(vec![FieldValue::Null, FieldValue::Int64(1)])); }
             v
         }
